@@ -95,6 +95,21 @@ def gen_case(r, kind):
         ep = [b, w] + par
         return pre + ep, ep
 
+def load_corpus(pid, kinds=None):
+    """regression cases kept in corpus/<pid>/cases.txt: '<kind> <harness numbers>' per line -> [(kind, hl, ep)]"""
+    out = []
+    p = os.path.join(VERIF, 'corpus', pid, 'cases.txt')
+    if os.path.exists(p):
+        for line in open(p):
+            t = line.split()
+            if not t or t[0].startswith('#') or (kinds and t[0] not in kinds): continue
+            hl = parse_floats(' '.join(t[1:])); npre = 51 if t[0] in BODY_KINDS else 20
+            ep = hl[npre:]
+            nint = 2 if t[0] in ('TPS', 'TPD', 'TPC', 'LB') + tuple(MOB_KINDS) else 1 if t[0] in ('CF', 'CT') else 0
+            for i in range(nint): ep[i] = int(ep[i]); hl[npre + i] = int(hl[npre + i])
+            out.append((t[0], hl, ep))
+    return out
+
 def fmt(xs):
     return ' '.join(hexf(x) if isinstance(x, float) else str(x) for x in xs)
 
@@ -262,7 +277,7 @@ def run(ctx):
     per = 40 if ctx.tier == 'quick' else 400
     if exes:
         r = ctx.rng
-        cases = []
+        cases = load_corpus('C13', INTERACTION + ['CF', 'CT']); ctx.extra['corpus_cases'] = len(cases)
         for k in INTERACTION + ['CF', 'CT']:
             for i in range(per):
                 hl, ep = gen_case(r, k); cases.append((k, hl, ep))
